@@ -63,9 +63,10 @@ def gen_server(c, P):
         elif a == 'close':
             code = c.int('code%d' % i, 16)
             if c.concrete is None:
-                # valid close codes only (violations are C04's): 1000-1003, 1007-1011, 3000-4999
+                # valid close codes only (violations are C04's): 1000-1003, 1007-1011, the IANA-registered 1012 (Service Restart)
+                # and 1013 (Try Again Later), 3000-4999
                 e = code.e
-                c.assume(z3.Or(z3.And(z3.UGE(e, 1000), z3.ULE(e, 1003)), z3.And(z3.UGE(e, 1007), z3.ULE(e, 1011)),
+                c.assume(z3.Or(z3.And(z3.UGE(e, 1000), z3.ULE(e, 1003)), z3.And(z3.UGE(e, 1007), z3.ULE(e, 1013)),
                                z3.And(z3.UGE(e, 3000), z3.ULE(e, 4999))))
                 hi, lo = SymInt(z3.Extract(15, 8, e), 8), SymInt(z3.Extract(7, 0, e), 8)
             else:
